@@ -63,6 +63,18 @@ CHECKS = {
               "{ndarray,list}: argument digests before/after and result digests of two successive calls; TLC evaluates the frame condition."),
         design_ref="DESIGN.md section 4, C05",
         note="sessions use one float ndarray and one float list as caller containers; pure-call part is a sampled frame condition (one argument set per function and variant); trusted: TLC 1.8, numpy.shares_memory, sha256"),
+    "C18": dict(
+        engine="Cluster",
+        technique="TLA+ definitional model of lag matching / same-start / rotation; TLC exhaustive over cluster configurations with the implementation in lock-step; TLC trace validation of recorded calls (one event per scan angle / cluster operation)",
+        category="model_checking",
+        text=("MC_Cluster: k in 2..4 signals, every master index, every lag vector in (-4,4)^(k-1) of exact delayed copies (k = 4 sampled "
+              "1 in 9 in the quick tier) plus offset clusters; behaviour Init -> TimeMatch -> SameStart with invariants MasterUnchanged, "
+              "LengthsUnchanged, LagRemoved, SameStartAligned on the model and equality with what eqsig.Cluster produced (values, "
+              "container types) in every state. Trace_Cluster: random real-valued clusters (noisy copies, random windows, steps 2..8), "
+              "combine_at_angle at special and random angles, compute_rotated scans (pga / callable pgv / arias_intensity / series "
+              "callable; offsets; points) re-computed by TLC from the definition."),
+        design_ref="DESIGN.md section 4, C18",
+        note="equal-length cluster members and a unique best lag (asserted); rotation to 1e-12 relative; sampled for real-valued data; trusted: TLC 1.8, FP.class, TableIO.class"),
 }
 
 NOT_YET = {}
